@@ -115,6 +115,7 @@ pub struct RecCollect {
     next_id: AtomicU64,
     /// when true, `event`/`new_span` self-check the filter and flag spurious deliveries immediately
     pub self_check: bool,
+    metas: Mutex<HashMap<u64, &'static Metadata<'static>>>,
 }
 
 thread_local! {
@@ -148,7 +149,7 @@ struct ValVisitor {
 }
 impl tracing_core::field::Visit for ValVisitor {
     fn record_u64(&mut self, field: &tracing_core::field::Field, value: u64) {
-        if field.name() == "val" {
+        if field.name() == "val" || field.name() == "late" {
             self.val = value;
         }
     }
@@ -157,7 +158,7 @@ impl tracing_core::field::Visit for ValVisitor {
 
 impl RecCollect {
     pub fn new(k: usize, filter: FilterSpec) -> Self {
-        RecCollect { k, filter, flipped: AtomicBool::new(false), next_id: AtomicU64::new(1), self_check: true }
+        RecCollect { k, filter, flipped: AtomicBool::new(false), next_id: AtomicU64::new(1 + k as u64 * 1_000_000), self_check: true, metas: Mutex::new(HashMap::new()) }
     }
     fn log(&self, kind: &'static str, meta: Option<&Metadata<'_>>, id: u64, id2: u64, val: u64, flag: bool) {
         let (site, skind, name) = meta.map(site_of).unwrap_or((-1, 9, ""));
@@ -202,6 +203,7 @@ impl Collect for RecCollect {
     }
     fn new_span(&self, attrs: &Attributes<'_>) -> Id {
         let id = self.next_id.fetch_add(1, Ordering::SeqCst);
+        self.metas.lock().unwrap().insert(id, attrs.metadata());
         let mut v = ValVisitor { val: 0 };
         attrs.record(&mut v);
         let parent = if attrs.is_root() {
@@ -236,7 +238,8 @@ impl Collect for RecCollect {
     }
     fn enter(&self, span: &Id) {
         // metadata is not available here; the stack keeps ids only (metadata slot unused)
-        STACKS.with(|s| s.borrow_mut().entry(self.k).or_default().push((span.into_u64(), &NULL_META)));
+        let meta = self.metas.lock().unwrap().get(&span.into_u64()).copied().unwrap_or(&NULL_META);
+        STACKS.with(|s| s.borrow_mut().entry(self.k).or_default().push((span.into_u64(), meta)));
         self.log("enter", None, span.into_u64(), 0, 0, true);
     }
     fn exit(&self, span: &Id) {
@@ -260,7 +263,7 @@ impl Collect for RecCollect {
     fn current_span(&self) -> Current {
         let top = STACKS.with(|s| s.borrow().get(&self.k).and_then(|v| v.last().copied()));
         match top {
-            Some((id, _)) => Current::new(Id::from_u64(id), &NULL_META),
+            Some((id, meta)) => Current::new(Id::from_u64(id), meta),
             None => Current::none(),
         }
     }
